@@ -16,6 +16,12 @@ func init() { register("C03", runC03) }
 // switchTable extracts, for the switch on value sel in fn, constant -> case block.
 func switchTable(fn *ssa.Function, isSel func(ssa.Value) bool) map[int64]*ssa.BasicBlock {
 	out := map[int64]*ssa.BasicBlock{}
+	type ent struct {
+		b *ssa.BasicBlock
+		v int64
+	}
+	var ents []ent
+	inS := map[*ssa.BasicBlock]bool{}
 	for _, b := range fn.Blocks {
 		ifi, ok := b.Instrs[len(b.Instrs)-1].(*ssa.If)
 		if !ok {
@@ -26,8 +32,28 @@ func switchTable(fn *ssa.Function, isSel func(ssa.Value) bool) map[int64]*ssa.Ba
 			continue
 		}
 		if v, ok := core.ConstInt(bo.Y); ok {
-			out[v] = b.Succs[0]
+			ents = append(ents, ent{b, v})
+			inS[b] = true
 		}
+	}
+	// a dispatch is a chain of such comparisons linked by their false edges; a lone comparison of the
+	// selector elsewhere in the function (`if code == X && ...` inside one branch) is not a case of it
+	chained := func(b *ssa.BasicBlock) bool {
+		if inS[b.Succs[1]] {
+			return true
+		}
+		for _, q := range b.Preds {
+			if inS[q] && q.Succs[1] == b {
+				return true
+			}
+		}
+		return false
+	}
+	for _, e := range ents {
+		if len(ents) > 1 && !chained(e.b) {
+			continue
+		}
+		out[e.v] = e.b.Succs[0]
 	}
 	return out
 }
@@ -778,6 +804,8 @@ func runC03(c *Ctx) {
 	ruleFreshTargets(c, p, "C03.fresh")
 	ruleReaderSource(c, p, "C03.source")
 	ruleReadFull(c, p, "C03.readfull")
+	ruleRowwise(c, p, "C03.rowwise")
+	ruleVersionPassThrough(c, p, "C03.version-through")
 	{
 		c.R.Rule("C03.messages", "E2 containment and gate provenance (as C17.shape / C17.gates / C17.fieldorder) for every protocol message: what the server-side encoders of progress, profile, exception, table columns, ... emit at a revision is what the client's decoders consume at that revision")
 		pairs := messagePairs(p)
@@ -1062,4 +1090,125 @@ func ruleCompressibleArg(c *Ctx, p *core.Program, rule string) {
 		}
 	}
 	c.R.Floor(rule, cfg, n, 3)
+}
+
+// ---- rowwise (C03): columnar telemetry is transposed row by row
+func ruleRowwise(c *Ctx, p *core.Program, rule string) {
+	c.R.Rule(rule, "the conversion of a columnar telemetry block into per-entry values (ProfileEvents.All, Logs.All: a proto function returning a slice of a proto struct, built in a loop) fills every field of entry i from row i: each value stored into a field of the entry inside the loop depends on the loop's index; a value hoisted out of the loop (the first row's host for every entry) gives every entry of a packet merged from several shards the same host")
+	cfg := p.Cfg.Name
+	n := 0
+	for _, fn := range p.Funcs() {
+		if pkgOf(fn) == nil || pkgOf(fn).Path() != core.PkgProto || fn.Blocks == nil || fn.Signature.Results().Len() == 0 {
+			continue
+		}
+		sl, ok := fn.Signature.Results().At(0).Type().Underlying().(*types.Slice)
+		if !ok {
+			continue
+		}
+		en := core.NamedOf(sl.Elem())
+		if en == nil || en.Obj().Pkg() == nil || en.Obj().Pkg().Path() != core.PkgProto {
+			continue
+		}
+		if _, isStruct := en.Underlying().(*types.Struct); !isStruct {
+			continue
+		}
+		// entries built by a helper called from the loop with the row index (`out = append(out, s.row(i))`)
+		for _, b := range fn.Blocks {
+			for _, in := range b.Instrs {
+				cl, ok := in.(*ssa.Call)
+				if !ok || !core.InLoop(in) {
+					continue
+				}
+				g := core.StaticFn(cl)
+				if g == nil || g.Blocks == nil || pkgOf(g) == nil || pkgOf(g).Path() != core.PkgProto || g.Signature.Results().Len() != 1 || core.NamedOf(g.Signature.Results().At(0).Type()) != en {
+					continue
+				}
+				hdr := core.LoopHeader(in)
+				if hdr == nil {
+					continue
+				}
+				// which parameter carries the row index
+				idxParam := -1
+				for ai, a := range cl.Call.Args {
+					bt, okb := a.Type().Underlying().(*types.Basic)
+					if !okb || bt.Info()&types.IsInteger == 0 {
+						continue
+					}
+					if core.DependsOn(a, func(v ssa.Value) bool {
+						ph, ok := v.(*ssa.Phi)
+						return ok && ph.Block() == hdr
+					}, false) {
+						idxParam = ai
+					}
+				}
+				for _, gb := range g.Blocks {
+					for _, gi := range gb.Instrs {
+						st, ok := gi.(*ssa.Store)
+						if !ok {
+							continue
+						}
+						fa, ok := st.Addr.(*ssa.FieldAddr)
+						if !ok {
+							continue
+						}
+						al, ok := fa.X.(*ssa.Alloc)
+						if !ok || core.NamedOf(al.Type()) != en {
+							continue
+						}
+						n++
+						key := core.FuncName(g) + "/" + fieldNameOnly(fa.X.Type(), fa.Field)
+						if _, isConst := st.Val.(*ssa.Const); isConst {
+							c.R.Ok(rule, key, cfg, p.Pos(st.Pos()), "constant")
+							continue
+						}
+						if idxParam >= 0 && idxParam < len(g.Params) && core.DependsOn(st.Val, func(v ssa.Value) bool { return v == ssa.Value(g.Params[idxParam]) }, true) {
+							c.R.Ok(rule, key, cfg, p.Pos(st.Pos()), "taken from the row whose index the loop passes")
+						} else {
+							c.R.Bad(rule, key, cfg, p.Pos(st.Pos()), "the field is filled with a value that does not depend on the row index the loop passes: every entry of the packet gets the same value")
+						}
+					}
+				}
+			}
+		}
+		for _, b := range fn.Blocks {
+			for _, in := range b.Instrs {
+				st, ok := in.(*ssa.Store)
+				if !ok || !core.InLoop(in) {
+					continue
+				}
+				fa, ok := st.Addr.(*ssa.FieldAddr)
+				if !ok {
+					continue
+				}
+				al, ok := fa.X.(*ssa.Alloc)
+				if !ok || core.NamedOf(al.Type()) != en {
+					continue
+				}
+				hdr := core.LoopHeader(in)
+				if hdr == nil {
+					continue
+				}
+				n++
+				key := core.FuncName(fn) + "/" + fieldNameOnly(fa.X.Type(), fa.Field)
+				if _, isConst := st.Val.(*ssa.Const); isConst {
+					c.R.Ok(rule, key, cfg, p.Pos(st.Pos()), "constant")
+					continue
+				}
+				dep := core.DependsOn(st.Val, func(v ssa.Value) bool {
+					ph, ok := v.(*ssa.Phi)
+					if !ok || ph.Block() != hdr {
+						return false
+					}
+					bt, ok := ph.Type().Underlying().(*types.Basic)
+					return ok && bt.Info()&types.IsInteger != 0
+				}, true)
+				if dep {
+					c.R.Ok(rule, key, cfg, p.Pos(st.Pos()), "taken from the row with the loop's index")
+				} else {
+					c.R.Bad(rule, key, cfg, p.Pos(st.Pos()), "the field is filled with a value that does not depend on the row index: every entry of the packet gets the same value (the first row's)")
+				}
+			}
+		}
+	}
+	c.R.Floor(rule, cfg, n, 10)
 }
